@@ -92,7 +92,7 @@ def gen_pd(rng, tier, independent=False):
     return {"kx": kx, "ky": ky, "kz": kz, "rows": rows, "lam": lam, "num": rng.choice([0.5, 2.0, -1.5]), "alpha": rng.choice([0.01, 0.05, 0.5]),
             "dtype": rng.choice(["int", "int", "category"]), "independent": independent,
             # the statistic does not depend on how states are labelled nor on the frame's index
-            "relabel": rng.choice([None, None, rng.randrange(10 ** 6)]), "index": rng.choice(["range", "range", "shuffled", "reversed", "str"])}
+            "edit": rng.random() < .4, "relabel": rng.choice([None, None, rng.randrange(10 ** 6)]), "index": rng.choice(["range", "range", "shuffled", "reversed", "str"])}
 
 
 def gen_indep(rng, tier):
@@ -207,7 +207,41 @@ def run_pd(case, drv):
                              "reordering Z": (chi4, p4, d4)}.items():
         if d_ != d or not core.close(c_, chi, 1e-8) or abs(p_ - p) > 1e-8:
             return fail(f"{nm} changes the result: ({chi}, {p}, {d}) vs ({c_}, {p_}, {d_})", **tags)
+    if Z and case.get("edit"):
+        # the SAME frame object, edited in place (same shape) after it has been tested once: the answer must be that of the new content.
+        # Rotating the values of the last conditioning column by one row moves rows between strata.
+        zc = Z[-1]
+        vals = list(df[zc])
+        df[zc] = pd_series_like(df, zc, vals[1:] + vals[:1])
+        rows2 = [list(r) for r in case["rows"]]
+        zi = 2 + len(Z) - 1
+        col = [r[zi] for r in rows2]
+        order = list(range(len(rows2)))
+        if case.get("index") == "shuffled":
+            return ok(nontrivial=dof > 0, **tags)          # row order of the frame differs from case["rows"]: skip the edit step
+        col = col[1:] + col[:1]
+        for r, c in zip(rows2, col):
+            r[zi] = c
+        mrows2 = [[r[0], r[1], core.ravel(kz, r[2:]) if kz else 0] for r in rows2]
+        m2 = drv.call("ci_stat", rows=mrows2, kx=case["kx"], ky=case["ky"], ks=max(ks, 1), kind="neyman" if lam == -2.0 else "pearson")
+        if any(o == 0 for t in m2["tables"] for row in t for o, _ in row) and lam < 0:
+            return ok(nontrivial=dof > 0, **tags)
+        exp2 = float(Fraction(m2["stat"])) if lam in (1.0, -2.0) else stat_from_tables(m2["tables"], lam)
+        try:
+            with np.errstate(all="ignore"):
+                chi5, p5, d5 = call_test(case, df, "X", "Y", Z, boolean=False)
+        except Exception as e:
+            return fail(f"{case['lam']} after an in-place edit of {zc} raised {type(e).__name__}: {e}", **tags)
+        if int(d5) != m2["dof"] or not core.close(chi5, exp2, 1e-8):
+            return fail(f"after editing column {zc} of the same frame in place: statistic {chi5} (dof {d5}), the edited data give {exp2} (dof {m2['dof']})", **tags)
     return ok(nontrivial=dof > 0, **tags)
+
+
+def pd_series_like(df, col, values):
+    import pandas as pd
+    if str(df[col].dtype) == "category":
+        return pd.Categorical(values, categories=list(df[col].cat.categories))
+    return pd.Series(values, index=df.index, dtype=df[col].dtype)
 
 
 # ----------------------------------------------------------------------------- partial correlation
